@@ -585,6 +585,23 @@ def add_reloads(rng, funcs, sched, share_hint=None):
         sched.append(e)
 
 
+def add_partial_stop(rng, funcs, sched, kind, key, mk_occ):
+    """two functions in DIFFERENT files listening to the same key; one file is reloaded (its triggers stop and start again)
+    between hand-overs for that key: the function in the untouched file and the restarted one must both keep running"""
+    if len(funcs) < 2:
+        funcs.append({"name": f"f{len(funcs)}", "decs": [], "acts": gen_acts(rng, ["pv_out"], long_sleep=False)})
+    for k, fn in enumerate(funcs):
+        fn["file"] = ["a", "b"][k % 2]
+    for fn in funcs[:2]:
+        if not any(d["kind"] == kind and d["key"] == key for d in fn["decs"]):
+            fn["decs"].append({"kind": kind, "key": key, "filter": None, "kwargs": {"kz": 4} if rng.random() < 0.4 else None})
+    sched.append(mk_occ())
+    for _ in range(rng.choice([1, 1, 2])):
+        sched.append({"kind": "reload", "file": rng.choice(["a", "b"])})
+        for _ in range(rng.choice([1, 2, 3])):
+            sched.append(mk_occ())
+
+
 def gen_call(rng):
     """a call to one of the natively registered test services (SupportsResponse.NONE / OPTIONAL / ONLY), via
     `pvtest.svc_x(...)` or `service.call("pvtest", "svc_x", ...)`, with/without return_response / blocking; only the
@@ -616,6 +633,13 @@ RAISE_PATTERNS = [  # (filter on NAME, value that makes it raise, exception kind
     (lambda n: ["lookup", n, [[1, True]]], None, "KeyError", True),
     (lambda n: ["lookup", n, [[1, True]]], [1], "TypeError", 1),
     (lambda n: ["cmp", ">", n, 0], "s", "TypeError", 1),
+    # not an exception but the same shape of history: the filter's value is falsy without being the object False
+    (lambda n: ["var", n], 0, "falsy int", 1),
+    (lambda n: ["var", n], "", "falsy str", "on"),
+    (lambda n: ["var", n], None, "falsy None", 2),
+    (lambda n: ["var", n], [], "falsy list", [1, 2]),
+    (lambda n: ["and", ["var", n], ["cmp", "!=", n, 5]], 0, "falsy operand of and", 1),
+    (lambda n: ["or", ["var", n], ["var", "kb"]], "", "falsy operands of or", 3),
 ]
 
 
@@ -818,6 +842,10 @@ class EventStream(FlowStream):
                 rng.choice(sched)["data"]["context"] = rng.choice(["zzz", 5])  # D81 territory
             if rng.random() < 0.3:
                 add_reloads(rng, funcs, sched)
+            elif rng.random() < 0.2:
+                k0 = rng.choice([d["key"] for d in funcs[0]["decs"]])  # a type funcs[0] already has: the fire graph stays acyclic
+                if len(funcs) < 2 or all(int(d["key"][4:]) >= int(k0[4:]) for d in funcs[1]["decs"]):
+                    add_partial_stop(rng, funcs, sched, "event", k0, lambda: {"kind": "event", "key": k0, "data": gen_data(rng)})
             case = {"legacy": legacy, "funcs": funcs, "sched": sched}
             case["tail"] = tail_of(case)
             cases.append(case)
@@ -891,6 +919,9 @@ class MqttStream(FlowStream):
                     sched.insert(rng.randrange(pos + 1, len(sched) + 1), {"kind": "mqtt", "topic": "pv/a", "payload": "1", "qos": 1, "retain": False})
             if rng.random() < 0.3:
                 add_reloads(rng, funcs, sched)
+            elif rng.random() < 0.2:
+                add_partial_stop(rng, funcs, sched, "mqtt", "pv/a", lambda: {"kind": "mqtt", "topic": "pv/a", "payload": rng.choice(["1", "on"]),
+                                                                           "qos": rng.choice([0, 1]), "retain": False})
             case = {"legacy": legacy, "funcs": funcs, "sched": sched}
             case["tail"] = tail_of(case)
             cases.append(case)
@@ -954,6 +985,8 @@ class WebhookStream(FlowStream):
                 add_raise_then_ok(rng, funcs, sched, ["pv_e0"])
             if rng.random() < 0.3:
                 add_reloads(rng, funcs, sched)
+            elif rng.random() < 0.25:
+                add_partial_stop(rng, funcs, sched, "webhook", "hook1", lambda: {"kind": "webhook", "key": "hook1", "json": {"x": rng.choice([1, 2])}})
             case = {"legacy": legacy, "funcs": funcs, "sched": sched}
             case["tail"] = tail_of(case)
             cases.append(case)
@@ -979,7 +1012,7 @@ class C08(Prop):
         "attribution of an observed run to one of several decorators of its function is found by an untrusted search in the harness and "
         "validated by the Coq checker (a wrong hint can only produce a false alarm)",
     ]
-    assumptions = ["generated functions take **kwargs", "filter names are not shadowed by script globals or builtins",
+    assumptions = ["generated functions take **kwargs", "reloads happen at quiescent points (all queues drained)", "filter names are not shadowed by script globals or builtins",
                    "the Spec's kwargs merge order: documented keys, then event data, then decorator kwargs (later wins)"]
     partial_note = ("HA's own scheduling of listeners, the real MQTT/webhook transports and request decoding are not modelled; @service runs "
                     "(no stored context) are out of scope of C08")
